@@ -11,6 +11,7 @@
    `den M i j` is the sum of the stored values of M at (i,j): the operator M represents. *)
 From Raptor Require Import Base.Sums Sparse.Defs Sparse.ConvertProofs
   Amg.Candidates Amg.CandidatesProofs Amg.ParCandidatesProofs Amg.Prolong Amg.ProlongProofs.
+From Raptor Require Import Sparse.SpgemmProofs Dist.Comm Dist.ParSpgemm Dist.ParSpgemmPkg Amg.ParProlongPkg.
 From Coq Require Import Field.
 
 Section C16.
@@ -198,6 +199,42 @@ Theorem C16_par_smooth_eq_seq_partial sizes (A T : csr F) omega k :
   par_jacobi sizes A T omega k = jacobi A T omega k.
 Proof. apply par_jacobi_eq. Qed.
 
+(* one distributed smoothing step with the product computed THROUGH A COMMUNICATION PACKAGE (not handed the global
+   rows of P): sA = scaled A is n x n with rows and columns partitioned by pa, P is n x nc with rows by pa and
+   columns by pc; `par_mult` fetches the rows of P a rank needs through the forward row exchange of the package
+   (`fetch_pkg`).  For EVERY package accepted by the id check of property C03 (`fwd_ok`) whose column maps cover
+   what the ranks need, entry (i,j) of the gathered result is P_ij minus the product entry, up to the drops of the
+   two accumulators (on-process / off-process partial sums) and of remove_duplicates ... *)
+Theorem C16_par_smooth_step_through_package (w : world) (ids colmaps : list (list nat)) (big : nat)
+        (sA P : csr F) (pa pc : list nat) i j :
+  csr_wf sA -> csr_wf P -> csr_nc sA = csr_nr P -> csr_nr sA = csr_nr P -> psum pa = csr_nr sA ->
+  fwd_ok w ids colmaps big = true -> length (csr_rows P) <= big ->
+  (forall r k, needs F sA pa pa r k = true -> r < length w /\ In k (nth r colmaps [])) ->
+  i < csr_nr sA ->
+  den (par_smooth_step_pkg F zero add mul opp small2 small w ids colmaps sA P pa pc) i j =
+  dropS (sub (den P i j)
+     (dropS (add
+       (dropm F zero small2 (sumF (map (fun k => if inblk pa (owner pa i) k then mul (den sA i k) (den P k j) else zero)
+                         (seq 0 (csr_nc sA)))))
+       (dropm F zero small2 (sumF (map (fun k => if negb (inblk pa (owner pa i) k) then mul (den sA i k) (den P k j) else zero)
+                         (seq 0 (csr_nc sA)))))))).
+Proof. exact (par_smooth_step_pkg_den F zero one add mul sub opp (F_R Fth) small2 small w ids colmaps big sA P pa pc i j). Qed.
+
+(* ... and exactly one step of (I - sA) on data where no partial sum is small but non-zero (a class `exact` closed
+   under +, *, - on which both drop tests only remove zeros; always so for integer data) *)
+Theorem C16_par_smooth_step_through_package_exact (exact : F -> Prop) (w : world) (ids colmaps : list (list nat))
+        (big : nat) (sA P : csr F) (pa pc : list nat) i j :
+  exact zero -> (forall x y, exact x -> exact y -> exact (add x y)) ->
+  (forall x y, exact x -> exact y -> exact (mul x y)) -> (forall x, exact x -> exact (opp x)) ->
+  (forall x, exact x -> small2 x = true -> x = zero) -> (forall x, exact x -> small x = true -> x = zero) ->
+  csr_wf sA -> csr_wf P -> csr_nc sA = csr_nr P -> csr_nr sA = csr_nr P -> psum pa = csr_nr sA ->
+  fwd_ok w ids colmaps big = true -> length (csr_rows P) <= big ->
+  (forall r k, needs F sA pa pa r k = true -> r < length w /\ In k (nth r colmaps [])) ->
+  (forall i k, exact (den sA i k)) -> (forall k j, exact (den P k j)) -> i < csr_nr sA ->
+  den (par_smooth_step_pkg F zero add mul opp small2 small w ids colmaps sA P pa pc) i j =
+  sub (den P i j) (sumF (map (fun k => mul (den sA i k) (den P k j)) (seq 0 (csr_nc sA)))).
+Proof. exact (par_smooth_step_pkg_exact F zero one add mul sub opp (F_R Fth) small2 small exact w ids colmaps big sA P pa pc i j). Qed.
+
 End C16.
 
 Print Assumptions C16_shapes.
@@ -215,6 +252,8 @@ Print Assumptions C16_par_T_entries.
 Print Assumptions C16_par_R.
 Print Assumptions C16_par_T_eq_seq.
 Print Assumptions C16_par_smooth_eq_seq_partial.
+Print Assumptions C16_par_smooth_step_through_package.
+Print Assumptions C16_par_smooth_step_through_package_exact.
 
 (* ---------- non-vacuity: every hypothesis above is satisfiable, at the executed instance Qc ---------- *)
 From Coq Require Import QArith Qcanon.
@@ -338,4 +377,26 @@ Proof.
       try (unfold Qcle, Qle; vm_compute; discriminate);
       intros H; apply (f_equal this) in H; vm_compute in H; discriminate.
   - apply Qc_is_canon. vm_compute. reflexivity.
+Qed.
+
+(* distributed step through a package, 2 ranks: sA = [[1,1],[0,2]] (rows/cols [1;1]), P = [[1],[-1]] (cols [1;0]);
+   rank 0 needs row 1 of P and receives it from rank 1; every hypothesis of the theorem holds and the step gives
+   P - sA P = [[1],[1]] *)
+Local Close Scope Qc_scope.
+Definition exw : world := [mkPkg [(1, 1)] []; mkPkg [] [(0, [0])]]%nat.
+Definition ex_sA : csr Z := mkCsr 2 2 [[(0, 1%Z); (1, 1%Z)]; [(1, 2%Z)]]%nat.
+Definition ex_P : csr Z := mkCsr 2 1 [[(0, 1%Z)]; [(0, (-1)%Z)]]%nat.
+Definition Zis0 (x : Z) : bool := Z.eqb x 0.
+Example C16_par_smooth_step_through_package_nonvacuous :
+  fwd_ok exw [[0]; [1]]%nat [[1]; []]%nat 2 = true /\
+  (forall r k, needs Z ex_sA [1; 1]%nat [1; 1]%nat r k = true -> (r < length exw)%nat /\ In k (nth r [[1]; []]%nat [])) /\
+  needs Z ex_sA [1; 1]%nat [1; 1]%nat 0 1 = true /\
+  csr_rows (par_smooth_step_pkg Z 0%Z Z.add Z.mul Z.opp Zis0 Zis0 exw [[0]; [1]]%nat [[1]; []]%nat ex_sA ex_P
+              [1; 1]%nat [1; 0]%nat) = [[(0%nat, 1%Z)]; [(0%nat, 1%Z)]].
+Proof.
+  split; [reflexivity|split; [|split; reflexivity]].
+  intros r k H. destruct r as [|[|r]].
+  - vm_compute in H. destruct k as [|[|k]]; try discriminate. split; [simpl; lia|left; reflexivity].
+  - vm_compute in H. discriminate.
+  - exfalso. unfold needs, off_cols, off_blk, blk, rows_where in H. cbn in H. discriminate.
 Qed.
